@@ -120,9 +120,9 @@ TrPopOK ==
     /\ IsEvent("PopOK")
     /\ WriteOKEff(E.s)
     /\ Keep
-TrPopErr ==               \* n = what f returned (unwritten buffers - 1), ri = b.ri afterwards
+TrPopErr ==               \* left = what f returned (unwritten buffers - 1), ri = b.ri afterwards
     /\ IsEvent("PopErr")
-    /\ WriteErrEff(E.s, (Len(r[E.s]) - ri[E.s]) - E.n - 1, E.ri)
+    /\ WriteErrEff(E.s, (Len(r[E.s]) - ri[E.s]) - E.left - 1, E.ri)
     /\ UNCHANGED errs
     /\ Keep
 
@@ -141,16 +141,16 @@ TrReconClose ==
 (* reportWouldBlockIfAny: Report precedes the write, ReportErr follows a failed one.  The
    amount of a failed report stays owed (ReportRetry semantics: "every drop is reported") *)
 TrReport ==
-    /\ IsEvent("Report") /\ E.n > 0
-    /\ ReportEff(E.s, E.n, TRUE, TRUE)
+    /\ IsEvent("Report") /\ E.amt > 0
+    /\ ReportEff(E.s, E.amt, TRUE, TRUE)
     /\ UNCHANGED errs
     /\ Keep
 TrReportErr ==
     /\ IsEvent("ReportErr") /\ conn[E.s] # 0
-    /\ Len(up[conn[E.s]]) > 0 /\ up[conn[E.s]][Len(up[conn[E.s]])] = <<"r", E.n>>
+    /\ Len(up[conn[E.s]]) > 0 /\ up[conn[E.s]][Len(up[conn[E.s]])] = <<"r", E.amt>>
     /\ up' = [up EXCEPT ![conn[E.s]] = SubSeq(@, 1, Len(@) - 1)]
-    /\ wb' = [wb EXCEPT ![E.s] = @ + E.n]
-    /\ reported' = reported - E.n
+    /\ wb' = [wb EXCEPT ![E.s] = @ + E.amt]
+    /\ reported' = reported - E.amt
     /\ werrs' = werrs + 1
     /\ UNCHANGED <<bufv, conn, recon, hndv, clsv, fwd, drp, rerrs, acc, done, upOf, skipped,
                    drops, dropBytes, closedRej, repLost, errs, spur>>
